@@ -25,7 +25,10 @@
   in the model exactly as on both sides of the correspondence (`stepChecked`).
 -/
 import Wbxml.Lemmas.TreeHeapWitness
+import Wbxml.Lemmas.TreeHeapXmlWitness
+import Wbxml.Lemmas.TreeHeapReinsert
 import Wbxml.Model.EncXml
+import Wbxml.Model.EncWbxml
 set_option linter.unusedSimpArgs false
 set_option linter.unusedVariables false
 namespace Wbxml.Props.C18
@@ -370,5 +373,209 @@ example : ∃ s', run (create [] 0 0)
 example : pre adjWitnessState (.addNode (some 0) 2) = true := by rfl
 example : pre adjWitnessState (.extract 1) = true := by rfl
 example : pre adjWitnessState (.destroy 2) = true := by rfl
+
+/-! ### API-built tree equals parsed tree
+
+  `apiHistoryOf es` (`Lemmas/TreeHeapXml.lean`) is the document-order history a client issues for the
+  document Expat reports as `es`: `wbxml_tree_add_xml_elt_with_attrs` under the current parent at a start
+  tag, `wbxml_tree_add_text` for character data, `wbxml_tree_add_cdata` (+ `wbxml_tree_add_text` below it)
+  for a CDATA section, one step up at an end tag.  `plainEvents L es` says which event lists are covered:
+  well-nested Expat output (prolog with XML declaration / DOCTYPE / PIs, one root, epilog) without the
+  four things the XML front end does beyond those calls —
+    * `embeddedName`: a `DevInf` / `MgmtTree` start tag below the root (embedded SyncML document),
+    * `attrPlain`:   an attribute reported in the XML namespace (`xml:lang` … mapping),
+    * `textPlain`:   character data below an element called `Data` (SyncML CDATA wrapping, LF → CRLF),
+    * `textPlain`:   character data below a binary-flagged element (ActiveSync base64 decoding).
+  Each exclusion has a kernel-evaluated witness below on which the two sides really differ.
+  Covered (no exclusion): DOCTYPE- and root-name-based language selection (`L` is whatever the front end
+  selected), the encoding declaration, names without table row (literals on both sides), namespace
+  prefixes / code pages, white-space-only text (the front end model attaches it like any text), text
+  reported in pieces (merged on both sides), processing instructions. -/
+
+/-- **Headline clause, `_partial`** (partial = restricted to `plainEvents`).  For EVERY language table,
+    every environment of Expat runs, every document on which the XML front end succeeds with tree `t`
+    (`treeOfXml … = .ok t`; the events are those of the run recorded for the document, and Expat's
+    verdict was `ok`), whose events are `plainEvents` for the language `L` the front end selected:
+    creating the tree with an id `lid` that denotes `L` and the parsed charset, and issuing the
+    document-order API history of the events, never faults, keeps the link invariant, and ends in a
+    state whose abstraction IS `t` — same language, same charset, same root, node for node. -/
+theorem api_tree_equals_parsed_partial (main : List Lang) (env : List (Bytes × ExpatRun)) (fuel : Nat)
+    (xml key : Bytes) (r : ExpatRun) (t : Tree) (L : Lang) (lid : Nat)
+    (henv : env.find? (fun p => p.1 == xml) = some (key, r))
+    (hparsed : treeOfXml main env fuel xml = .ok t)
+    (hlang : t.lang = some L)
+    (hplain : plainEvents L r.events = true)
+    (hlid : main.find? (fun l => l.id == lid) = t.lang) :
+    r.ok = true ∧
+    ∃ s', run (create main lid t.origCharset) (apiHistoryOf r.events) = .ok s' ∧ Inv s' ∧ absTree s' = .ok t := by
+  obtain ⟨sub, hok, _, herr, ht⟩ := treeOfXml_ok_inv henv hparsed
+  subst ht
+  refine ⟨hok, ?_⟩
+  simp only at hlang hlid
+  obtain ⟨s', hr, hI, habs⟩ := api_history_abs main xml sub r.events
+    (r.events.foldl (xbuildStep main xml sub) {}).charset hplain herr hlang
+  have hc : create main lid (r.events.foldl (xbuildStep main xml sub) {}).charset =
+      { lang := some L, charset := (r.events.foldl (xbuildStep main xml sub) {}).charset } := by
+    simp only [create, hlid, hlang]
+  refine ⟨s', by rw [hc]; exact hr, hI, ?_⟩
+  rw [habs, hlang]
+
+/-- … hence the API-built document converts to the same WBXML bytes and the same XML bytes as the
+    parsed one, for EVERY option tuple of the two encoders. -/
+theorem api_built_converts_like_parsed_partial (main : List Lang) (env : List (Bytes × ExpatRun)) (fuel : Nat)
+    (xml key : Bytes) (r : ExpatRun) (t : Tree) (L : Lang) (lid : Nat)
+    (henv : env.find? (fun p => p.1 == xml) = some (key, r))
+    (hparsed : treeOfXml main env fuel xml = .ok t)
+    (hlang : t.lang = some L)
+    (hplain : plainEvents L r.events = true)
+    (hlid : main.find? (fun l => l.id == lid) = t.lang)
+    (cfgW : X2WCfg) (cfgX : W2XCfg) (xfuel : Nat) :
+    ∃ s', run (create main lid t.origCharset) (apiHistoryOf r.events) = .ok s' ∧
+      (absTree s' >>= treeToWbxml cfgW) = treeToWbxml cfgW t ∧
+      (absTree s' >>= treeToXml cfgX xfuel) = treeToXml cfgX xfuel t := by
+  obtain ⟨_, s', hr, _, habs⟩ := api_tree_equals_parsed_partial main env fuel xml key r t L lid henv hparsed hlang hplain hlid
+  refine ⟨s', hr, ?_, ?_⟩ <;> rw [habs] <;> rfl
+
+/-! ### Shape determines the bytes -/
+
+/-- ANY two histories (insertions of every kind, extractions, re-insertions, destructions, calls outside
+    the contract; on trees of any language and charset) that end in the same shape — equal `abs` — give
+    the same WBXML bytes and the same XML bytes under every option tuple; and `abs` is defined for both.
+    (As `abs_eq_same_xml`: true by construction of the model encoders, which are functions of `abs`; the
+    evidence that the REAL encoders are is the correspondence check `T2`/`X2`/`W2`.) -/
+theorem same_shape_same_bytes (main : List Lang) (lang₁ cs₁ lang₂ cs₂ : Nat) (ops₁ ops₂ : List Op) (s₁ s₂ : St)
+    (h₁ : run (create main lang₁ cs₁) ops₁ = .ok s₁) (h₂ : run (create main lang₂ cs₂) ops₂ = .ok s₂)
+    (hshape : absTree s₁ = absTree s₂) (cfgW : X2WCfg) (cfgX : W2XCfg) (fuel : Nat) :
+    ∃ t, absTree s₁ = .ok t ∧ absTree s₂ = .ok t ∧
+      (absTree s₁ >>= treeToWbxml cfgW) = (absTree s₂ >>= treeToWbxml cfgW) ∧
+      (absTree s₁ >>= treeToXml cfgX fuel) = (absTree s₂ >>= treeToXml cfgX fuel) := by
+  obtain ⟨s', t, e, ht⟩ := abs_total_all_histories main lang₁ cs₁ ops₁
+  rw [h₁] at e; injection e with e; subst e
+  exact ⟨t, ht, by rw [← hshape]; exact ht, by rw [hshape], by rw [hshape]⟩
+
+/-- `wbxml_tree_extract_node(tree, n)` followed by `wbxml_tree_add_node(tree, P, n)` is the identity on
+    `abs` — for every state satisfying the invariant and every live node `n` that is the LAST child of its
+    parent `P` (`n->next == NULL`), provided `n` and its previous sibling are not both text nodes.
+    Both calls are inside the contract (`run` does not skip them), the invariant holds afterwards.
+    The side condition is exact: see `extract_then_reinsert_merges_adjacent_text`. -/
+theorem extract_then_reinsert_last_child (s : St) (hI : Inv s) (n P : Nat) (cn : Cell)
+    (hcn : s.cellAt n = some cn) (hp : cn.parent = some P) (hlast : cn.next = none)
+    (hside : ∀ q cq, cn.prev = some q → s.cellAt q = some cq → ¬ (cn.pay.isText = true ∧ cq.pay.isText = true)) :
+    ∃ s', run s [.extract n, .addNode (some P) n] = .ok s' ∧ Inv s' ∧ absTree s' = absTree s := by
+  obtain ⟨G, hF⟩ := hI
+  obtain ⟨s1, s2, e1, e2, hF2, _, _, _, _, habs, hpre⟩ := extract_reinsert_last hF hcn hp hlast (by
+    intro q cq hq hcq
+    have := hside q cq hq hcq
+    cases h1 : cn.pay.isText <;> cases h2 : cq.pay.isText <;> simp_all)
+  refine ⟨s2, ?_, ⟨G, hF2⟩, habs⟩
+  have hpre0 : pre s (.extract n) = true := by simp only [pre, hcn, Option.isSome_some]
+  have st1 : stepChecked s (.extract n) = .ok (.code 0, s1) := by
+    unfold stepChecked; rw [if_pos hpre0]; simp only [step, e1]
+  have st2 : stepChecked s1 (.addNode (some P) n) = .ok (.bool true, s2) := by
+    unfold stepChecked; rw [if_pos hpre]; simp only [step, e2]
+  rw [run_cons _ st1, run_cons _ st2]; rfl
+
+/-- Corollary: inserting a detached sub-tree, extracting it and inserting it again at the same place gives
+    the same `abs` as inserting it once — for every state with the invariant and without adjacent text
+    siblings (e.g. after any extraction-free history, `no_adjacent_text_partial`) and every insertion
+    inside the contract; no call of the longer history is skipped. -/
+theorem insert_extract_insert_same_abs (s : St) (hI : Inv s) (hN : NoAdjText s) (P n : Nat)
+    (hpre : pre s (.addNode (some P) n) = true) :
+    ∃ s1 s3, run s [.addNode (some P) n] = .ok s1 ∧
+      run s [.addNode (some P) n, .extract n, .addNode (some P) n] = .ok s3 ∧ Inv s3 ∧ absTree s3 = absTree s1 := by
+  obtain ⟨G, hF⟩ := hI
+  exact insert_extract_insert hF hN hpre
+
+/-- Without the side condition the statement is false: on the state of the known finding
+    `adjacent-text-after-extract` (root with the adjacent text children "a", "b") the last child "b" has a
+    text node as previous sibling; extracting it and adding it back leaves ONE child "ab". -/
+theorem extract_then_reinsert_merges_adjacent_text : reinsertMergeCheck = true := by decide +kernel
+
+/-! ### Non-vacuity of the headline theorems: a WML and a SyncML document -/
+
+/-- WML 1.2 (DOCTYPE, encoding declaration, attributes, nested elements, text reported in pieces, a
+    CDATA section, a processing instruction): all hypotheses hold, the theorems apply. -/
+example : ∃ t s', treeOfXml Gen.main wmlEnv 1 wmlXml = .ok t ∧ t.lang = some Gen.lang2 ∧
+    run (create Gen.main 1103 t.origCharset) (apiHistoryOf wmlEvents) = .ok s' ∧ absTree s' = .ok t ∧
+    (∀ cfgW, (absTree s' >>= treeToWbxml cfgW) = treeToWbxml cfgW t) ∧
+    (∀ cfgX f, (absTree s' >>= treeToXml cfgX f) = treeToXml cfgX f t) := by
+  have h1 : parsedLangIs (treeOfXml Gen.main wmlEnv 1 wmlXml) Gen.lang2 = true := by decide +kernel
+  have h2 : plainEvents Gen.lang2 wmlEvents = true := by decide +kernel
+  have h3 : Gen.main.find? (fun l => l.id == 1103) = some Gen.lang2 := by decide +kernel
+  obtain ⟨t, ht, hl⟩ := parsedLangIs_inv h1
+  have henv : wmlEnv.find? (fun p => p.1 == wmlXml) = some (wmlXml, { ok := true, events := wmlEvents }) := by
+    simp [wmlEnv]
+  obtain ⟨_, s', hr, _, habs⟩ := api_tree_equals_parsed_partial Gen.main wmlEnv 1 wmlXml wmlXml _ t Gen.lang2 1103
+    henv ht hl h2 (by rw [h3, hl])
+  refine ⟨t, s', ht, hl, hr, habs, ?_, ?_⟩
+  · intro cfgW; rw [habs]; rfl
+  · intro cfgX f; rw [habs]; rfl
+
+/-- … and, evaluated independently of the theorem, both sides of the WML example give the same non-empty
+    WBXML and XML bytes. -/
+example : sidesAgree (treeOfXml Gen.main wmlEnv 1 wmlXml) Gen.lang2 wmlEvents = true := by decide +kernel
+
+/-- SyncML 1.2 (language found from the root element's namespace, two code pages, a literal attribute,
+    nesting, text in pieces). -/
+example : ∃ t s', treeOfXml Gen.main syncEnv 1 syncXml = .ok t ∧ t.lang = some Gen.lang15 ∧
+    run (create Gen.main 2201 t.origCharset) (apiHistoryOf syncEvents) = .ok s' ∧ absTree s' = .ok t ∧
+    (∀ cfgW, (absTree s' >>= treeToWbxml cfgW) = treeToWbxml cfgW t) ∧
+    (∀ cfgX f, (absTree s' >>= treeToXml cfgX f) = treeToXml cfgX f t) := by
+  have h1 : parsedLangIs (treeOfXml Gen.main syncEnv 1 syncXml) Gen.lang15 = true := by decide +kernel
+  have h2 : plainEvents Gen.lang15 syncEvents = true := by decide +kernel
+  have h3 : Gen.main.find? (fun l => l.id == 2201) = some Gen.lang15 := by decide +kernel
+  obtain ⟨t, ht, hl⟩ := parsedLangIs_inv h1
+  have henv : syncEnv.find? (fun p => p.1 == syncXml) = some (syncXml, { ok := true, events := syncEvents }) := by
+    simp [syncEnv]
+  obtain ⟨_, s', hr, _, habs⟩ := api_tree_equals_parsed_partial Gen.main syncEnv 1 syncXml syncXml _ t Gen.lang15 2201
+    henv ht hl h2 (by rw [h3, hl])
+  refine ⟨t, s', ht, hl, hr, habs, ?_, ?_⟩
+  · intro cfgW; rw [habs]; rfl
+  · intro cfgX f; rw [habs]; rfl
+
+example : sidesAgree (treeOfXml Gen.main syncEnv 1 syncXml) Gen.lang15 syncEvents = true := by decide +kernel
+
+/-! ### What `plainEvents` excludes: on each kind the two sides really differ
+
+  In every witness the XML front end succeeds (tree of the stated language), `plainEvents` rejects the
+  event list, and the document-order API history builds a tree whose WBXML bytes AND XML bytes (default
+  options) differ from those of the parsed tree (`sidesDiffer`). -/
+
+/-- `attrPlain`: `<wml xml:lang="en"/>` — the front end maps the namespace-qualified name back to `xml:lang`
+    (a table attribute), `wbxml_tree_add_xml_elt_with_attrs` called with the reported name does not. -/
+theorem excluded_xml_namespace_attr :
+    parsedLangIs (treeOfXml Gen.main xmlLangEnv 1 xmlLangXml) Gen.lang0 = true ∧
+    plainEvents Gen.lang0 xmlLangEvents = false ∧
+    sidesDiffer (treeOfXml Gen.main xmlLangEnv 1 xmlLangXml) Gen.lang0 xmlLangEvents = true := by decide +kernel
+
+/-- `textPlain` (element called `Data`): `<Add><Item><Data>x</Data>…` in SyncML — the front end wraps the text
+    in a CDATA node. -/
+theorem excluded_syncml_data_text :
+    parsedLangIs (treeOfXml Gen.main dataEnv 1 dataXml) Gen.lang15 = true ∧
+    plainEvents Gen.lang15 dataEvents = false ∧
+    sidesDiffer (treeOfXml Gen.main dataEnv 1 dataXml) Gen.lang15 dataEvents = true := by decide +kernel
+
+/-- `textPlain` (binary-flagged element): `<MIME>QUJD</MIME>` in ActiveSync — the front end attaches the
+    base64 DECODING `ABC`. -/
+theorem excluded_binary_flagged_text :
+    parsedLangIs (treeOfXml Gen.main mimeEnv 1 mimeXml) Gen.lang27 = true ∧
+    plainEvents Gen.lang27 mimeEvents = false ∧
+    sidesDiffer (treeOfXml Gen.main mimeEnv 1 mimeXml) Gen.lang27 mimeEvents = true := by decide +kernel
+
+/-- `embeddedName`: `<SyncML><DevInf>…</DevInf></SyncML>` — the front end re-parses the byte range as a DevInf
+    document and attaches a nested tree; the API history adds an element. -/
+theorem excluded_embedded_devinf :
+    parsedLangIs (treeOfXml Gen.main devinfEnv 2 devinfXml) Gen.lang15 = true ∧
+    plainEvents Gen.lang15 devinfEvents = false ∧
+    sidesDiffer (treeOfXml Gen.main devinfEnv 2 devinfXml) Gen.lang15 devinfEvents = true := by decide +kernel
+
+/-- The SHAPE part of `plainEvents` excludes event lists Expat never reports for a well-formed document
+    (unbalanced tags, text outside the root, a second root, CDATA outside an element …).  On most of them
+    the front end answers an error (the hypothesis `treeOfXml … = .ok t` is false); where it does not,
+    the two sides may well agree — e.g. a CDATA section as the whole document — but that is not proved. -/
+theorem excluded_shape_agrees_unproved :
+    parsedLangIs (treeOfXml Gen.main cdataRootEnv 1 b!"x") Gen.lang2 = true ∧
+    plainEvents Gen.lang2 cdataRootEvents = false ∧
+    sidesAgree (treeOfXml Gen.main cdataRootEnv 1 b!"x") Gen.lang2 cdataRootEvents = true := by decide +kernel
 
 end Wbxml.Props.C18
